@@ -19,7 +19,7 @@ CLAIMS = {
     "C06": ("Per corpus tree with numeric options: for every user state with symbolic ints and the full malformed / negative / huge / differently formatted candidate lists, arriving via set_value or sdkconfig lines: every value is well-formed for its type, inside the active range, and header / CMake / JSON render the same number without raising; also after one further symbolic operation on each option with all caches filled.", "DESIGN.md 4/C06"),
     "C07": ("Per corpus tree x rename shape: for every user state, the five output formats (sdkconfig, header, CMake, JSON, auto.conf) read back with small trusted readers agree on presence and value of every option and every deprecated alias (inversion per alias line).", "DESIGN.md 4/C07"),
     "C08": ("Clause 1: per corpus tree and every user state, the tool-written file loaded with and without its default-marked entries gives the same configuration, now and after one further symbolic operation; unmarked entries come back as user values. Clause 2: 13 (old tree, new tree) pairs x policy {sdkconfig, kconfig}: kconfig ignores stale default-marked entries, sdkconfig keeps a still-valid stored value, both report the mismatch.", "DESIGN.md 4/C08"),
-    "C09": ("Totality: per accepted corpus tree, for every user state with malformed candidates, every value / visibility / output evaluates without exception. Cycles: all 354 forward-edge x back-edge mutants are rejected at load with a dependency-loop error (enumeration of concrete programs).", "DESIGN.md 4/C09"),
+    "C09": ("Totality: per accepted corpus tree, for every user state with malformed candidates, every value / visibility / output evaluates without exception. Cycles: all (465) forward-edge x back-edge mutants are rejected at load with a dependency-loop error (enumeration of concrete programs).", "DESIGN.md 4/C09"),
     "C10": ("Per corpus tree: for every user state, each of the four minimal-config variants (labels x =n normalisation) and kconfgen's variant reloads in a fresh instance to the same value for every option; labelled and unlabelled variants carry the same assignments in the same order.", "DESIGN.md 4/C10"),
     "C11": ("Per rename shape: every sdkconfig of up to 2 (thorough 3) lines mixing old and new names (symbolic name, form, value) loads to the same configuration as its translation to new names (inversion, 'is not set' on inverted aliases); old names never appear as unknown; the deprecated block is ignored unless requested and, when requested, its entries evaluate to the written values.", "DESIGN.md 4/C11"),
     "C12": ("Per corpus tree (and tree-version pair): symbolic pre-state, completed sync, symbolic operation, sync with symbolic crash point (before any mutating file operation or inside a write), further symbolic operation, rerun from a fresh instance: every option (and alias) whose header value differs from the last completed sync has been touched since; without crash: no untouched change, no spurious touch, repeated sync is a no-op.", "DESIGN.md 4/C12"),
